@@ -2,7 +2,7 @@
    vm_compute inside Coq or through the OCaml extraction (coq/extract). *)
 From Coq Require Import String.
 From Gemato Require Import Py.PyStr Py.PyTime Gen.PyFacts Gen.Tables Gen.Util
-  Model.Entry Model.Text Exec.Sx.
+  Model.Entry Model.Text Spec.Cleartext Exec.Sx.
 Open Scope N_scope.
 
 Definition is_cmd (c : ustr) (s : string) : bool := ustr_eqb c (u s).
@@ -59,6 +59,9 @@ Definition run_text (c : ustr) (args : list sx) : option sx :=
       else if is_cmd c "ustr_ltb" then Some (sbool (ustr_ltb (x_str a) (x_str b)))
       else if is_cmd c "path_join" then Some (SS (path_join (x_str a) (x_str b)))
       else if is_cmd c "encode_sweep" then Some (encode_sweep (x_N a) (x_nat b))
+      else None
+  | [a; b; d] =>
+      if is_cmd c "c04_b" then Some (sbool (c04_b (x_str a) (map dec_entry (x_list b)) (x_str d)))
       else None
   | _ => None
   end.
